@@ -24,46 +24,71 @@ def typedVis (dts : List Nat) : List (String × Annot) :=
   ((List.range dts.length).zip dts).filterMap
     (fun p => if p.2 = 0 then none else some ("x" ++ toString p.1, (⟨some p.2, none⟩ : Annot)))
 
-/-- typed form: operator, arity, attribute names legal AND the declared input element types admitted -/
-def tformLegal (v : Nat) (f : String × Nat × Nat × List String × List Nat) : Bool :=
-  let n : Node := .mk "" f.1 (typedIns f.2.2.2.2) (List.replicate f.2.2.1 "y") f.2.2.2.1 []
-  decide (f.2.1 = f.2.2.2.2.length) && nodeLegalB schemas v n && nodeTypedB schemas v (typedVis f.2.2.2.2) n
+def typedOuts (dts : List Nat) : List String := (List.range dts.length).map (fun k => "y" ++ toString k)
+
+def typedVisOut (dts : List Nat) : List (String × Annot) :=
+  ((List.range dts.length).zip dts).filterMap
+    (fun p => if p.2 = 0 then none else some ("y" ++ toString p.1, (⟨some p.2, none⟩ : Annot)))
+
+/-- typed form `(op, #in, #out, attributes as name:AttributeType, input dtypes, output dtypes)`: operator, arity,
+    attribute names legal AND attribute types, required attributes, declared input / output element types and
+    type variables admitted by the signature in force -/
+def tformLegal (v : Nat) (f : String × Nat × Nat × List String × List Nat × List Nat) : Bool :=
+  let n : Node := .mk "" f.1 (typedIns f.2.2.2.2.1) (typedOuts f.2.2.2.2.2) f.2.2.2.1 []
+  decide (f.2.1 = f.2.2.2.2.1.length) && decide (f.2.2.1 = f.2.2.2.2.2.length) && nodeLegalB schemas v n
+    && nodeTypedB schemas v (typedVis f.2.2.2.2.1 ++ typedVisOut f.2.2.2.2.2) n
 
 /-- opsets carrying the claim: 21 .. newest defined by the installed onnx -/
 def claimedOpsets : List Nat := List.range' 21 (maxOpset - 20)
 
-/-- **Reduce gate.** For EVERY opset 21..max and every reduction operator of
-    `_REDUCTION_AXES_INPUT_SINCE`, the node the live `builder_reduce_with_axes` emits (explicit axes:
-    attribute or second input, and the axes-free form) is legal at that opset. -/
-theorem reduce_gate_legal :
-    ∀ e ∈ reduceForms, 21 ≤ e.1 → formLegal e.1 e.2 = true := by decide +kernel
+/-! The typed tables are grouped by operator (`op ↦ rows (opset, #in, #out, attributes, input dtypes, output
+    dtypes)`), so that the kernel looks an operator up in the 200-operator table ONCE per group. -/
 
-/-- the table really contains a row for every claimed opset and every operator of the gate table -/
-theorem reduce_gate_complete :
-    ∀ v ∈ claimedOpsets, ∀ op ∈ reduceAxesSince.map (·.1),
-      (reduceForms.any fun e => e.1 == v && e.2.1 == op && e.2.2.1 == 2
-          || e.1 == v && e.2.1 == op && e.2.2.2.2.contains "axes") = true := by decide +kernel
+abbrev Row := Nat × Nat × Nat × List String × List Nat × List Nat
 
-/-- **Swish gate.** For EVERY opset 21..max the nodes left by the live
-    `rewrite_mul_sigmoid_as_swish_ir` on `x * Sigmoid(x)` are legal at that opset. -/
-theorem swish_gate_legal :
-    ∀ e ∈ swishForms, 21 ≤ e.1 → e.2.all (formLegal e.1) = true := by decide +kernel
+def rowNode (op : String) (r : Row) : Node :=
+  .mk "" op (typedIns r.2.2.2.2.1) (typedOuts r.2.2.2.2.2) r.2.2.2.1 []
 
-theorem swish_gate_complete :
-    ∀ v ∈ claimedOpsets, (swishForms.any fun e => e.1 == v) = true := by decide +kernel
+def rowVis (r : Row) : List (String × Annot) := typedVis r.2.2.2.2.1 ++ typedVisOut r.2.2.2.2.2
 
-/-- **Gate programs.** Every distinct node form (any depth, function bodies included; with the declared
-    element type of every input) of the gate programs exported by the live `to_onnx` at every opset
-    21..max is legal at that opset: operator version, arity, attribute names AND input element types
-    against the type constraints of the signature in force. This is the
-    `_partial` form of "every emitted operator is legal": it covers the catalogue `gatePrograms`
-    (opset-gated lowerings: reductions, silu/swish, rms_norm, dynamic_update_slice, reduce_window, …),
-    NOT all ~600 plugins – those are checked per export by the proven checker. -/
-theorem gate_programs_legal_partial :
-    ∀ e ∈ gateForms, tformLegal e.1 e.2 = true := by decide +kernel
+/-- `tformLegal` with the operator's version list already looked up -/
+def rowLegalWith (sigs : List Sig) (op : String) (r : Row) : Bool :=
+  match sigAt sigs r.1 with
+  | none => false
+  | some s => decide (r.2.1 = r.2.2.2.2.1.length) && decide (r.2.2.1 = r.2.2.2.2.2.length)
+      && sigAdmits s (rowNode op r) && sigTyped s (rowVis r) (rowNode op r)
 
-theorem gate_programs_complete :
-    ∀ v ∈ claimedOpsets, ∀ p ∈ gatePrograms, (gateExports.contains (p, v)) = true := by decide +kernel
+def groupLegal (g : String × List Row) : Bool :=
+  match lookupOp schemas g.1 with
+  | none => false
+  | some sigs => g.2.all (rowLegalWith sigs g.1)
+
+theorem tformLegal_of_rowLegalWith (op : String) (sigs : List Sig) (r : Row)
+    (hl : lookupOp schemas op = some sigs) (h : rowLegalWith sigs op r = true) :
+    tformLegal r.1 (op, r.2) = true := by
+  unfold rowLegalWith at h
+  split at h
+  · cases h
+  · rename_i s hs
+    simp only [Bool.and_eq_true] at h
+    obtain ⟨⟨⟨h1, h2⟩, h3⟩, h4⟩ := h
+    have e1 : nodeLegalB schemas r.1 (rowNode op r) = true := by
+      simp only [nodeLegalB, rowNode, Node.op, hl, hs]; exact h3
+    have e2 : nodeTypedB schemas r.1 (rowVis r) (rowNode op r) = true := by
+      have hd : ((rowNode op r).domain != "") = false := by simp [rowNode, Node.domain]
+      simp only [nodeTypedB, hd, Bool.false_eq_true, if_false]
+      simp only [rowNode, Node.op, hl, hs]; exact h4
+    simp only [tformLegal, Bool.and_eq_true]
+    exact ⟨⟨⟨h1, h2⟩, e1⟩, e2⟩
+
+theorem groupLegal_sound (g : String × List Row) (h : groupLegal g = true) :
+    ∀ r ∈ g.2, tformLegal r.1 (g.1, r.2) = true := by
+  unfold groupLegal at h
+  split at h
+  · cases h
+  · rename_i sigs hl
+    intro r hr
+    exact tformLegal_of_rowLegalWith g.1 sigs r hl (List.all_eq_true.mp h r hr)
 
 /-! The full-strength statement "every operator a plugin emits exists at the declared opset" is
     REFUTED on the unchanged tree by `lax.cumprod` / `jnp.cumprod` (CumProd) and
@@ -84,8 +109,23 @@ theorem cumprod_bitcast_legal_at_26 :
     of `lax.iota` / `jnp.arange` must therefore not be below 27) -/
 theorem range_half_floats_since_27 :
     ∀ d ∈ [10, 16], (∀ v ∈ [21, 22, 23, 24, 25, 26],
-        tformLegal v ("Range", 3, 1, [], [d, d, d]) = false) ∧ tformLegal 27 ("Range", 3, 1, [], [d, d, d]) = true := by
+        tformLegal v ("Range", 3, 1, [], [d, d, d], [d]) = false) ∧ tformLegal 27 ("Range", 3, 1, [], [d, d, d], [d]) = true := by
   decide +kernel
+
+/-! attribute types / required attributes / output types against the INSTALLED onnx.defs (hand-written node
+    forms, every claimed opset) -/
+
+/-- `Cast` needs its `to` (an INT attribute); a FLOAT `to`, a missing `to`, and a `Relu` whose declared output
+    element type differs from its input's are rejected at every claimed opset; the well-formed ones accepted -/
+theorem attr_and_output_types_enforced :
+    ∀ v ∈ claimedOpsets,
+      tformLegal v ("Cast", 1, 1, ["to:2"], [1], [7]) = true ∧
+      tformLegal v ("Cast", 1, 1, ["to:1"], [1], [7]) = false ∧
+      tformLegal v ("Cast", 1, 1, [], [1], [7]) = false ∧
+      tformLegal v ("Relu", 1, 1, [], [10], [10]) = true ∧
+      tformLegal v ("Relu", 1, 1, [], [10], [1]) = false ∧
+      tformLegal v ("Transpose", 1, 1, ["perm:7"], [1], [1]) = true ∧
+      tformLegal v ("Transpose", 1, 1, ["perm:2"], [1], [1]) = false := by decide +kernel
 
 /-- the full statement fails: a model consisting of the node `lax.cumprod` emits, stamped opset 23 -/
 theorem every_emitted_operator_legal_refuted :
